@@ -434,6 +434,11 @@ type CopyObjectResult struct {
 	XMLName      xml.Name    `xml:"CopyObjectResult"`
 	ETag         string      `xml:"ETag,omitempty"`
 	LastModified ContentTime `xml:"LastModified,omitempty"`
+
+	// VersionID is the ID of the version the copy created, if versioning is
+	// enabled on the destination bucket. It travels in the x-amz-version-id
+	// header, not in the document.
+	VersionID VersionID `xml:"-"`
 }
 
 // MFADeleteStatus is used by VersioningConfiguration.
